@@ -161,6 +161,17 @@ func (e *Engine) step(st *State) []*State {
 		// no-op (blocking is not a panic); sending on nil blocks forever
 	case *ssa.Go:
 		st.note("go statement dropped: spawned goroutine body is not verified as part of the caller (" + fnKey(fr.fn) + ")")
+		// the spawn itself is counted, so that contracts can say how many goroutines of a kind are started
+		if gname := calleeName(&in.Call, e.val(st, in.Call.Value)); gname != "" {
+			cur, ok := st.calls[gname]
+			if !ok {
+				cur = "0"
+			}
+			st.calls[gname] = simplifyAdd1(cur)
+			if st.dry != nil {
+				st.dry.mod.calls[gname] = true
+			}
+		}
 	case *ssa.Defer:
 		d := Deferred{Callee: in.Call, Instr: in}
 		if !in.Call.IsInvoke() {
